@@ -3,6 +3,7 @@ package main
 import (
 	"fmt"
 	"go/ast"
+	"go/token"
 	"go/types"
 	"sort"
 	"strings"
@@ -37,6 +38,8 @@ func runC05(c *Config, r *Report) {
 	freshFrameSlots(ic, r, "R05.2")
 	pureLookups(ic, r, "R05.6")
 	c05R7(ic, r)
+	c05R8(ic, r, "R05.8")
+	c05R9(ic, r)
 	c05R3(ic, r)
 	c05R5(ic, r)
 	// R05.4: method resolution and receiver binding happen per call. The run-time closures keep
@@ -416,3 +419,150 @@ func c05R7(ic *IC, r *Report) {
 		r.Errorf("R05.7: no closure of typeAssert compares method sets")
 	}
 }
+
+func init() {
+	ruleText["R05.8"] = "in the generator of interface wrappers, the wrapper is skipped because reflect reports that the frame type implements the interface only for non-struct types: every reflect.Type.Implements shortcut is conjoined with, or nested under, cat != structT (interpreted methods are not in reflect's method set; a struct can get promoted compiled methods that interpreted ones shadow)"
+}
+
+// c05R8: shared as R07.15. Two independent round-5 agents (C05, C07) removed or narrowed the
+// struct test of genInterfaceWrapper.
+func c05R8(ic *IC, r *Report, rule string) {
+	info := ic.Info
+	fi := ic.fn(r, "genInterfaceWrapper")
+	if fi == nil {
+		return
+	}
+	structT, _ := ic.Pk.Types.Scope().Lookup("structT").(*types.Const)
+	if structT == nil {
+		r.Errorf("%s: constant structT not found", rule)
+		return
+	}
+	// locals holding n.typ.cat
+	catFld := ic.field("itype", "cat")
+	isCat := func(e ast.Expr) bool {
+		if selField(info, e) == catFld {
+			return true
+		}
+		if id := identOf(e); id != nil {
+			obj := info.ObjectOf(id)
+			found := false
+			ast.Inspect(fi.Decl.Body, func(m ast.Node) bool {
+				if as, ok := m.(*ast.AssignStmt); ok && len(as.Lhs) == len(as.Rhs) {
+					for i, l := range as.Lhs {
+						if lid := identOf(l); lid != nil && info.ObjectOf(lid) == obj && selField(info, as.Rhs[i]) == catFld {
+							found = true
+						}
+					}
+				}
+				return true
+			})
+			return found
+		}
+		return false
+	}
+	notStruct := func(e ast.Expr) bool { // e contains, as a conjunct, X != structT
+		ok := false
+		var visit func(x ast.Expr)
+		visit = func(x ast.Expr) {
+			x = unparen(x)
+			if be, isB := x.(*ast.BinaryExpr); isB {
+				if be.Op == token.LAND {
+					visit(be.X)
+					visit(be.Y)
+					return
+				}
+				if be.Op == token.NEQ {
+					if id := identOf(be.Y); id != nil && info.ObjectOf(id) == structT && isCat(be.X) {
+						ok = true
+					}
+				}
+			}
+		}
+		visit(e)
+		return ok
+	}
+	n := 0
+	for _, c := range callsIn(info, fi.Decl.Body, true, "reflect.Type.Implements") {
+		n++
+		guarded := false
+		for _, p := range enclosingPath(fi.Decl.Body, c) {
+			if ifs, ok := p.(*ast.IfStmt); ok {
+				inBody := ifs.Body.Pos() <= c.Pos() && c.End() <= ifs.Body.End()
+				inCond := ifs.Cond.Pos() <= c.Pos() && c.End() <= ifs.Cond.End()
+				if (inBody || inCond) && notStruct(ifs.Cond) {
+					guarded = true
+				}
+			}
+		}
+		r.Check(guarded, rule, fmt.Sprintf("genInterfaceWrapper/implements-shortcut#%d/not-for-structs", n), ic.pos(c.Pos()), "the reflect shortcut is taken for non-struct types only",
+			"genInterfaceWrapper skips the wrapper when reflect reports that the value's type implements the host interface ("+ic.pos(c.Pos())+") also for struct types: reflect only sees the methods promoted from embedded compiled types, so an interpreted method that redefines one of them (type T struct{ bytes.Buffer }; func (T) String() string) is bypassed when the value is handed to compiled code")
+	}
+	if n == 0 {
+		r.Errorf("%s: no reflect.Type.Implements shortcut found in genInterfaceWrapper", rule)
+	}
+}
+
+func init() {
+	ruleText["R05.9"] = "in the generator of type assertions, the failure 'interface is nil' is decided on the validity of the dynamic value only: no IsNil/IsZero test (direct or through an in-package helper) leads to it - an interface holding a typed nil pointer, map, slice, func or channel is not a nil interface"
+}
+
+// c05R9: round-5 seed replaced !v.value.IsValid() by a helper that also tests IsNil.
+func c05R9(ic *IC, r *Report) {
+	info := ic.Info
+	fi := ic.fn(r, "typeAssert")
+	if fi == nil {
+		return
+	}
+	callsNilTest := func(e ast.Node) string {
+		bad := ""
+		for _, c := range allCalls(e) {
+			f, ok := calleeOf(info, c).(*types.Func)
+			if !ok {
+				continue
+			}
+			if f.Pkg() != nil && f.Pkg().Path() == "reflect" && (f.Name() == "IsNil" || f.Name() == "IsZero") {
+				bad = "reflect.Value." + f.Name()
+			}
+			if f.Pkg() == ic.Pk.Types {
+				if hd := ic.G.Funcs[f]; hd != nil && hd.Decl.Body != nil && hd.Decl.Recv == nil {
+					takesValue := false
+					sg := f.Type().(*types.Signature)
+					for i := 0; i < sg.Params().Len(); i++ {
+						if types.TypeString(sg.Params().At(i).Type(), nil) == "reflect.Value" {
+							takesValue = true
+						}
+					}
+					if takesValue && len(callsIn(info, hd.Decl.Body, true, "reflect.Value.IsNil", "reflect.Value.IsZero")) > 0 {
+						bad = f.Name() + " (tests IsNil/IsZero)"
+					}
+				}
+			}
+		}
+		return bad
+	}
+	n := 0
+	ast.Inspect(fi.Decl.Body, func(m ast.Node) bool {
+		ifs, ok := m.(*ast.IfStmt)
+		if !ok {
+			return true
+		}
+		mentions := false
+		for s := range stringLits(ifs.Body) {
+			if strings.Contains(s, "is nil, not") {
+				mentions = true
+			}
+		}
+		if !mentions {
+			return true
+		}
+		n++
+		bad := callsNilTest(ifs.Cond)
+		r.Check(bad == "", "R05.9", fmt.Sprintf("typeAssert/nil-interface-test#%d/validity-only", n), ic.pos(ifs.Pos()), "the nil-interface failure is decided on IsValid",
+			"typeAssert reports 'interface is nil' (or ok == false) under "+types.ExprString(ifs.Cond)+", which calls "+bad+": an interface value holding a typed nil pointer (or nil map, slice, func, channel) fails v.(*T) and v, ok := i.(*T) although its dynamic type is *T")
+		return true
+	})
+	if n == 0 {
+		r.Errorf("R05.9: no 'interface is nil' failure found in typeAssert")
+	}
+}
+
